@@ -81,6 +81,7 @@ def twins():
 
 def invoke(case, c, operands):
     """Returns list of result labels (as returned by the generator)."""
+    gencommon.elsewhere_first(case, _invoke)
     guard = gencommon.OperandLists(operands, alias=case.get("alias", False))
     try:
         return _invoke(case, c, guard.lists)
@@ -399,6 +400,11 @@ def make_cases(tier, rnd):
     for mode in MUL_MODES:
         for n in (2, 4, 6):
             cases.append(dict(kind="mul", mode=mode, widths=[n, n], big_endian=bool(n % 4), host="repeat2", alias=True))
+    for mode in MUL_MODES:
+        for wd in ([2, 9], [2, 12], [12, 2], [3, 3]) + (([3, 13], [2, 14], [5, 5]) if thorough else ()):
+            cases.append(dict(kind="mul", mode=mode, widths=list(wd), big_endian=bool(wd[0] % 2), host="fresh", history="another-circuit-first"))
+    for mode in SQ_MODES:
+        cases.append(dict(kind="square", mode=mode, widths=[5], host="fresh", history="another-circuit-first"))
     for mode in MUL_MODES:
         cases.append(dict(kind="mul", mode=mode, widths=[3, 3], host="fresh", history="remove-and-call-again"))
         cases.append(dict(kind="mul", mode=mode, widths=[4, 2], big_endian=True, host="host", history="remove-and-call-again"))
